@@ -23,6 +23,9 @@ SPEC = {
         "trees -- no plz-out name below the top level of the root package, no hidden directory unless hidden=True -- the WalkDir "
         "callback with its SkipDir cuts, isInDirectories and isHidden leave exactly the package's owned, visible entries, "
         "symlinks in the symlink bucket; so nothing inside a sub-package or plz-out is ever returned and nothing owned is lost), "
+        "C21_cache_transparent (the Globber as a state machine with its walk cache: for every sequence of glob() calls of one "
+        "BUILD file each call returns what it returns on a Globber of its own -- by induction over the sequence, from the facts "
+        "that the cached listing depends only on its key and hidden filtering is per call), C21_call_is_globAll, "
         "C21_spec_is_selection, C21_exclude_exact (shouldExcludeMatch's three clauses = the specification's), and composed "
         "C21_exact_partial: on benign trees and patterns of the fragment the pipeline globber.glob runs (walk, matcher of an "
         "include, sub-package / hidden filters, excludes) accepts a name iff the specification selects the entry -- with every "
@@ -35,7 +38,7 @@ SPEC = {
     "technique": "Lean 4 theorems over an executable model (walk, filepath.Match fragment, ReplaceAll chain interpreted from extracted facts, regexp-fragment parser and matcher) + differential correspondence on real directory trees + segment-wise reference oracle",
     "trusted": [
         "go/ast extractor harness/extract/c21: toRegexString's wrap and ordered ReplaceAll chain (interpreted by the model), the `**` selector, plz-out literal and its rootPath guard, isHidden markers; source shapes of patternToMatcher / walkDir / glob filters / isInDirectories / isBathPathOf / shouldExcludeMatch (base-path test, file-name-only rule) / isBuildFile / regexGlob.Match = unanchored MatchString / builtInGlob.Match = filepath.Match (unrecognised shape -> facts unreadable -> Expected facts + thorough correspondence); builtins.go glob(): BUILD file names appended to the excludes (a real fact: its absence fails C21_facts_ok)",
-        "correspondence harness/cmd/c21 vs Driver/C21.lean: (*Globber).Glob called like builtins.go:726 (BUILD file names appended to excludes) on trees created under $VERIF_SCRATCH; 900-case exhaustive family (30 patterns x 5 exclude sets x 3 package roots x hidden) + seeded random trees/patterns derived from existing paths (names with ( ) | + # . spaces, non-ASCII; hidden files/dirs, symlinks, nested packages, plz-out); results compared as sets",
+        "correspondence harness/cmd/c21 vs Driver/C21.lean: single calls and call SEQUENCES on one shared Globber (128-case exhaustive family of two-call sequences x hidden flags x roots + every 4th random case: 2-4 calls, mixed hidden flags, repeated/overlapping patterns, other package directories), each call compared with the reference, with the same call on a fresh Globber (cache transparency), and -- for sequences in one package -- with a BUILD file holding the same glob() calls evaluated by the real interpreter (EvalForVerif hook); (*Globber).Glob called like builtins.go:726 (BUILD file names appended to excludes) on trees created under $VERIF_SCRATCH; 900-case exhaustive family (30 patterns x 5 exclude sets x 3 package roots x hidden) + seeded random trees/patterns derived from existing paths (names with ( ) | + # . spaces, non-ASCII; hidden files/dirs, symlinks, nested packages, plz-out); results compared as sets",
         "driver self-check on every case: string-level matcher == parsed-pattern matcher (structMatch) on all walked names",
         "direct oracle: independent segment-wise reference in Go; a failure is named after the first member of a smallest set of the six switchable known deviations that reproduces the real output exactly; patterns routed through the regexp with ( ) | are attributed to regex-metacharacters-unescaped; anything else is `unexplained`",
         "modelled, not verified: Model/Glob.lean; Go's regexp and filepath.Match are modelled only on the fragment (literals, * ? [a-z] [^a-z], groups, |, [^/]*, .*, (..)?); inputs outside it answer `unmodelled` on both sides (the oracle still judges them)",
@@ -47,6 +50,12 @@ SPEC = {
 }
 
 MUTATIONS = """
+Round-2 seed /tmp/seedout2/C21/patch.diff (hidden entries dropped once in walkDir, walk cache still keyed by rootPath only):
+ exit 1 -- extractor reads the shape as facts (hiddenAtWalk=true, hiddenPerMatch=false, cacheKeyHasHidden=false), C21_facts_ok
+ fails, the model (Globber state machine) follows: 0 disagreements; direct oracle VIOLATION globber-cache-not-transparent with
+ a concrete call sequence: glob(["*"], hidden=True) then glob(["*"]) on one Globber: call 2 returns "#x#", ".", ".h.txt", ".hid"
+ on the shared Globber but not on a fresh one (also seen through the real interpreter: one BUILD file with two glob() calls).
+
 Seeded change /tmp/seedout/C21/patch.diff (isBathPathOf reduced to a bare string-prefix test): exit 1 -- extractor reports the
  shouldExcludeMatch/isBathPathOf shape unreadable, Expected facts + thorough correspondence: 20 disagreements, oracle VIOLATION
  class unexplained with input (package with BUILD.plz at top level and build name BUILD: Glob=[] specified=["BUILD.plz"]).
